@@ -936,6 +936,22 @@ func (d *deriver) nameFinal(dv *Derived) {
 				return
 			}
 			for i, p := range x.Parts {
+				// a field name computed from the name (Exported applied on the Go side) is a copy as well
+				if strings.HasPrefix(p.Tok, OpExported) {
+					rest := p.Tok[len(OpExported):]
+					for base, want := range final {
+						if strings.HasPrefix(rest, base) {
+							ncopies++
+							if k := strings.Count(rest[len(base):], RenameMark); k != want {
+								nstale++
+								if len(stale) < 4 {
+									stale = append(stale, fmt.Sprintf("%s holds Exported(%q)", path, rest))
+								}
+							}
+						}
+					}
+					continue
+				}
 				want, isName := final[p.Tok]
 				if p.Tok == "" || !isName {
 					continue
